@@ -172,4 +172,64 @@ theorem diffusion_hermitian (c ρ : Matrix n n ℂ) (h : ρ.IsHermitian) : (diff
     Matrix.conjTranspose_mul, Matrix.conjTranspose_mul, Matrix.conjTranspose_conjTranspose, h.eq, add_comm]
 
 end sme
+/-! ## The Wiener process seen by feedback coefficients -/
+section wienerobj
+variable {R : Type} [AddCommMonoid R]
+
+theorem seg_add (dW : Nat → R) (a n m : Nat) : seg dW a (n + m) = seg dW a n + seg dW (a + n) m := by
+  induction m with
+  | zero => simp [seg]
+  | succ m ih => rw [← Nat.add_assoc, seg, ih, seg, add_assoc, Nat.add_assoc]
+
+/-- the state is consistent: the stored value is the process at the stored index -/
+def WState.Inv (dW : Nat → R) (s : WState R) : Prop := s.lastW = wienerAt dW s.idxLast
+
+theorem WState.init_inv (dW : Nat → R) : WState.Inv dW (⟨0, 0⟩ : WState R) := by
+  simp [WState.Inv, wienerAt, seg]
+
+/-- one call returns the process at the queried step — the sum of the increments before it — and keeps
+the state consistent, whether the query is later, equal or earlier than the previous one -/
+theorem WState.call_spec (dW : Nat → R) (s : WState R) (h : s.Inv dW) (idx : Nat) :
+    (s.call dW idx).2 = wienerAt dW idx ∧ (s.call dW idx).1.Inv dW := by
+  have key : (s.call dW idx).2 = wienerAt dW idx := by
+    unfold WState.call
+    by_cases hgt : s.idxLast > idx
+    · simp only [hgt, if_true, Nat.sub_zero, wienerAt, zero_add]
+    · simp only [hgt, if_false]
+      have hle : s.idxLast ≤ idx := Nat.le_of_not_gt hgt
+      rw [h, wienerAt, wienerAt]
+      have := seg_add dW 0 s.idxLast (idx - s.idxLast)
+      rw [Nat.zero_add, Nat.add_sub_cancel' hle] at this
+      exact this.symm
+  refine ⟨key, ?_⟩
+  have h1 : (s.call dW idx).1.idxLast = idx := rfl
+  have h2 : (s.call dW idx).1.lastW = (s.call dW idx).2 := rfl
+  unfold WState.Inv
+  rw [h2, key, h1]
+
+/-- **every history of calls**: whatever times a coefficient asks for, in whatever order and however
+often, each answer is the running sum of the increments up to that time (0 at the start) -/
+theorem wiener_history_spec (dW : Nat → R) (s : WState R) (h : s.Inv dW) (calls : List Nat) :
+    runCalls (WState.call dW) s calls = calls.map (wienerAt dW) := by
+  induction calls generalizing s with
+  | nil => rfl
+  | cons i is ih =>
+    obtain ⟨h1, h2⟩ := WState.call_spec dW s h i
+    simp only [runCalls, List.map_cons, h1, ih _ h2]
+
+/-- asking twice gives the same answer -/
+theorem wiener_call_idempotent (dW : Nat → R) (s : WState R) (h : s.Inv dW) (idx : Nat) :
+    ((s.call dW idx).1.call dW idx).2 = (s.call dW idx).2 := by
+  obtain ⟨h1, h2⟩ := WState.call_spec dW s h idx
+  rw [(WState.call_spec dW _ h2 idx).1, h1]
+
+end wienerobj
+
+/-- non-vacuity / the defect: with increments 1, 10, 100 the rule before the repair answers 1 at the
+start and counts increments twice; the repaired rule gives 0, 1, 11, 11 -/
+example : runCalls (WState.callOld (fun k => ([1, 10, 100] : List Int).getD k 0)) ⟨0, 0⟩ [0, 1, 2, 2]
+    = [1, 12, 122, 222] := by decide
+example : runCalls (WState.call (fun k => ([1, 10, 100] : List Int).getD k 0)) ⟨0, 0⟩ [0, 1, 2, 2]
+    = [0, 1, 11, 11] := by decide
+
 end Qv.C17
